@@ -450,6 +450,27 @@ def rebind_fid_scale():
   g['fid_scale'], g['_fid_scale_v2'] = g['_fid_scale_v2'], g['fid_scale']
 
 
+def lazy_proto(uid, x='d_x'):
+  """Stand-in that documents are written with before they are retargeted to
+  fsim.lazy_k.make."""
+  return ('proto', uid, x)
+
+
+def lazy_pause():
+  """Explicit pre-emption points inside a module body that is being imported."""
+  from fsim import simlock
+  sc = simlock.CURRENT
+  if sc is not None and sc.thread_id() >= 0:
+    for _ in range(3):
+      sc.pause(3)
+
+
+def moved_fn(uid, x='d_x'):
+  """Deprecated stand-in; the real one lives in fsim.stubmod_new after the
+  migration (see machines/serial.py)."""
+  return ('old', uid, x)
+
+
 def fid_replace(cfg, v):
   """Fiddler that returns a replacement instead of mutating."""
   import copy
